@@ -437,9 +437,8 @@ class Searcher(object):
         # uniques is a list of ("unique_field_name", "field_value") tuples
         delset = set()
         for name, value in uniques:
-            docnum = self.document_number(**{name: value})
-            if docnum is not None:
-                delset.add(docnum)
+            # Every document with the value, not just the first one
+            delset.update(self.document_numbers(**{name: value}))
         return delset
 
     def _query_to_comb(self, fq):
